@@ -2,6 +2,7 @@ import MesaModel.Model.Viz
 import MesaModel.Model.VizLayers
 import MesaModel.Model.VizAltair
 import MesaModel.Model.VizInputs
+import MesaModel.Model.VizKwargs
 /-!
 Line-protocol driver for the Viz model (C20).  One output line per input line.
 Producer: harness/viz_common.py.
@@ -16,6 +17,7 @@ Producer: harness/viz_common.py.
   place A X Y | move A X Y | remove A | ghost A
   collect | collectd COLOR SIZE MARKER ZORDER
   draw | altair | heap | drawc | altairc   (…c: through the solara component)
+  drawk K=V …                        draw_space(…, **{K: V}), K ∈ alpha edgecolors linewidths (plotting keyword arguments)
   drawc0 | altairc0                  the components without a portrayal (their defaults: `{}`, `{"id": unique_id}`)
   layer v…                           property layer `v`: values, x-major (W*H ints);  layern NAME v…: layer NAME
   drawlayers SPEC…                   SPEC = NAME:MODE:ALPHA:VMIN:VMAX:CBAR, MODE ∈ color=C cmap=C none, ALPHA percent,
@@ -108,6 +110,10 @@ def groupLe (a b : Group) : Bool :=
 /-- the markers of a scatter call as they end up on the Axes (`Group.drawn`: the keyword arrays applied) -/
 def fmtGroup (g : Group) : String :=
   g.drawn.foldl (fun acc e => acc ++ " " ++ fmtMarker e) s!"{g.marker} {g.zorder} n={g.drawn.length}"
+
+def fmtDrawKw (d : KwDrawing) : String :=
+  ((d.groups.mergeSort groupLe).foldl (fun acc g =>
+    acc ++ " | " ++ (g.drawn.map (applyKw d.kw)).foldl (fun a e => a ++ " " ++ fmtMarker e) s!"{g.marker} {g.zorder} n={g.drawn.length}") "ok")
 
 def fmtDraw (gs : List Group) : String :=
   (gs.mergeSort groupLe).foldl (fun acc g => acc ++ " | " ++ fmtGroup g) "ok"
@@ -353,6 +359,16 @@ def stepLine (st : St) (ws : List String) : St × String :=
       match drawSpace sp st.heap st.portrayal with
       | .ok gs => (st, fmtDraw gs)
       | .error e => (st, fmtErr e)
+  | "drawk" :: kvs =>
+    withSpace st fun sp =>
+      match kvs.mapM parseKV with
+      | none => (st, "bad-op")
+      | some kw =>
+        if kw.isEmpty || !(kw.map (·.1)).Nodup || !kw.all (fun kv => ["alpha", "edgecolors", "linewidths"].contains kv.1) then (st, "bad-op")
+        else match drawSpaceKw sp st.heap st.portrayal kw with
+          | .ok d => (st, fmtDrawKw d)
+          | .error .attribute => (st, "err Attribute")
+          | .error (.conflict k) => (st, s!"err Value conflict {k}")
   | ["draw"] =>
     withSpace st fun sp =>
       match drawSpace sp st.heap st.portrayal with
